@@ -63,6 +63,11 @@ class RefStore:
         if kind == "single":
             ops = [{"op": "single", "c": key[1], "dets": list(self.detectors), "runs": list(self.detectors)}]
             tgt = 0
+        elif kind == "count":
+            ops = [
+                {"op": "single", "c": key[1], "dets": list(self.detectors), "runs": list(self.detectors), "trace": "count"}
+            ]
+            tgt = 0
         elif kind == "parse":
             ops = [{"op": "parse", "c": key[1], "adj": True}]
             tgt = 0
@@ -98,6 +103,8 @@ class RefStore:
     def need_ops(self, ops: List[Dict[str, Any]]) -> None:
         hm = handle_map(ops)
         for op in ops:
+            if op.get("trace") == "count" and op["op"] == "single":
+                self.need(("count", op["c"]))
             if op["op"] == "group":
                 self.group_ops[op["canon"]] = op
             self.need(ref_key(op, hm))
